@@ -79,7 +79,74 @@ Qed.
 (* every hypothesis of the Inv section holds for the extracted instance: size = N.of_nat w (0 < w <= 16384),
    x_enc_len, x_dec_enc, x_codec_rt, x_compress_small *)
 Example x_hypotheses_satisfiable :
-  exists s0, x_import 8 FORMAT_PCO 8 [] [] = Ok s0 /\
+  exists s0, x_import 8 FORMAT_PCO 8 0 [] [] = Ok s0 /\
     s_stored_len (fst (x_step 8 FORMAT_PCO 8 (fst (x_step 8 FORMAT_PCO 8 s0 (Push (x_mk_list 8 [1; 2; 3]))))
                                (Write []))) = 3.
 Proof. eexists. split; [reflexivity|]. now vm_compute. Qed.
+
+(* ---- C04, compressed: the chain of rollbacks across a truncating commit is refused (known finding) ------------ *)
+(* commit [0,1,2,3] @1; push 9, commit @2; truncate to 1, commit @3; rollback (ok: back to 5 values, stamp 2,
+   stored_len clamped to 1, four values re-queued); rollback again: the retained record of stamp 2 is refused. *)
+Definition x_chain_history : list (x_op 8) :=
+  [Push (x_mk_list 8 [0; 1; 2; 3]); StampedWrite 1 []; Push (x_mk_list 8 [9]); StampedWrite 2 [];
+   Trunc 1; StampedWrite 3 []; Rollback].
+
+Definition x_run8 (k : N) (h : list (x_op 8)) : option (x_cvs 8) :=
+  match x_import 8 FORMAT_LZ4 8 k [] [] with
+  | Ok s0 => Some (fold_left (fun s o => fst (x_step 8 FORMAT_LZ4 8 s o)) h s0)
+  | _ => None
+  end.
+
+(* full statement: whenever the record of the current stamp is retained, rollback() succeeds *)
+Definition C04_comp_chain_full_stmt : Prop :=
+  forall (h : list (x_op 8)) s,
+    x_run8 3 h = Some s ->
+    (exists dir bs, s_changes s = Some dir /\ lookup_file dir (cv_stamp s) = Some bs) ->
+    snd (x_step 8 FORMAT_LZ4 8 s Rollback) = Ok false.
+
+Definition x_chain_check : bool :=
+  match x_run8 3 x_chain_history with
+  | Some s =>
+      match s_changes s with
+      | Some dir =>
+          match lookup_file dir (cv_stamp s) with
+          | Some _ => match snd (x_step 8 FORMAT_LZ4 8 s Rollback) with Err EIndexTooHigh => true | _ => false end
+          | None => false
+          end
+      | None => false
+      end
+  | None => false
+  end.
+
+Lemma x_chain_check_true : x_chain_check = true.
+Proof. vm_compute. reflexivity. Qed.
+
+Lemma x_chain_refuted : ~ C04_comp_chain_full_stmt.
+Proof.
+  intros H. pose proof x_chain_check_true as C. unfold x_chain_check in C.
+  destruct (x_run8 3 x_chain_history) as [s|] eqn:E; [|discriminate].
+  destruct (s_changes s) as [dir|] eqn:Ed; [|discriminate].
+  destruct (lookup_file dir (cv_stamp s)) as [bs|] eqn:El; [|discriminate].
+  specialize (H x_chain_history s E ltac:(eauto)).
+  rewrite H in C. discriminate.
+Qed.
+
+(* … while the first rollback of that history restored the committed state exactly *)
+Example x_chain_first_rollback_exact :
+  match x_run8 3 x_chain_history with
+  | Some s => match x_collect 8 s with
+              | Ok l => (x_vals l, cv_stamp s) = ([0; 1; 2; 3; 9], 2)
+              | _ => False
+              end
+  | None => False
+  end.
+Proof.
+  assert (C : match x_run8 3 x_chain_history with
+              | Some s => match x_collect 8 s with
+                          | Ok l => (x_vals l, cv_stamp s) = ([0; 1; 2; 3; 9], 2)
+                          | _ => False
+                          end
+              | None => False
+              end) by (vm_compute; reflexivity).
+  exact C.
+Qed.
